@@ -38,6 +38,16 @@ type Program struct {
 
 	cgOnce sync.Once
 	cg     *callgraph.Graph
+
+	// InlineMode makes Func, Funcs, AllFuncs and DeclOf hand out the inlined
+	// view of every declaration (core/inline.go): the second of the two
+	// behaviour-equivalent views a rule may be discharged on.
+	InlineMode bool
+
+	// inlining (core/inline.go)
+	inlineBusy int
+	inlined   map[*types.Func]*FuncDecl
+	posOrigin map[token.Pos]token.Pos
 }
 
 // LoadOpts configures a load.
@@ -132,6 +142,9 @@ func (p *Program) Rel(pos token.Pos) string {
 	if !pos.IsValid() {
 		return "-"
 	}
+	if o, ok := p.posOrigin[pos]; ok {
+		pos = o
+	}
 	ps := p.Fset.Position(pos)
 	r, err := filepath.Rel(p.Repo, ps.Filename)
 	if err != nil {
@@ -142,6 +155,9 @@ func (p *Program) Rel(pos token.Pos) string {
 
 // RelFile renders the file of pos relative to the repo.
 func (p *Program) RelFile(pos token.Pos) string {
+	if o, ok := p.posOrigin[pos]; ok {
+		pos = o
+	}
 	ps := p.Fset.Position(pos)
 	r, err := filepath.Rel(p.Repo, ps.Filename)
 	if err != nil {
@@ -152,6 +168,9 @@ func (p *Program) RelFile(pos token.Pos) string {
 
 // IsTestFile reports whether the position is in a _test.go file.
 func (p *Program) IsTestFile(pos token.Pos) bool {
+	if o, ok := p.posOrigin[pos]; ok {
+		pos = o
+	}
 	return strings.HasSuffix(p.Fset.Position(pos).Filename, "_test.go")
 }
 
@@ -216,7 +235,11 @@ func (p *Program) Funcs(pk *packages.Package) []*FuncDecl {
 			if obj == nil {
 				continue
 			}
-			out = append(out, &FuncDecl{Pkg: pk, Decl: fd, Obj: obj})
+			d := &FuncDecl{Pkg: pk, Decl: fd, Obj: obj}
+			if p.InlineMode {
+				d = p.Inlined(d)
+			}
+			out = append(out, d)
 		}
 	}
 	return out
@@ -234,6 +257,15 @@ func (p *Program) AllFuncs() []*FuncDecl {
 // Func finds a function or method by package (relative), receiver type name
 // ("" for functions) and name. It returns nil if it does not exist.
 func (p *Program) Func(rel, recv, name string) *FuncDecl {
+	fd := p.RawFunc(rel, recv, name)
+	if p.InlineMode {
+		return p.Inlined(fd)
+	}
+	return fd
+}
+
+// RawFunc is Func without inlining: the declaration as written.
+func (p *Program) RawFunc(rel, recv, name string) *FuncDecl {
 	pk := p.Pkg(rel)
 	if pk == nil {
 		return nil
@@ -269,6 +301,15 @@ func RecvNamed(fn *types.Func) *types.Named {
 
 // DeclOf finds the declaration of a function object inside the module.
 func (p *Program) DeclOf(fn *types.Func) *FuncDecl {
+	fd := p.RawDeclOf(fn)
+	if p.InlineMode && fd != nil {
+		return p.Inlined(fd)
+	}
+	return fd
+}
+
+// RawDeclOf is DeclOf without inlining.
+func (p *Program) RawDeclOf(fn *types.Func) *FuncDecl {
 	if fn == nil || fn.Pkg() == nil {
 		return nil
 	}
